@@ -156,6 +156,7 @@ def generate(seed: int, tier: str = "quick") -> dict:
     if deferred and rng.random() < 0.35:
         cfg["fault_compute"] = {"at": rng.randint(1, 60), "exc": rng.choice(["InjectedFault", "MemoryError", "OSError"])}
     cfg["s1"] = deferred and rng.random() < (0.3 if tier == "quick" else 0.6)
+    cfg["compute_twice"] = rng.random() < 0.6
     nm = int((cfg["rot_params"] or params)["n_modes"])
     qrng = seeds.stream(seed, "queries")
     cfg["handles"] = models.draw_queries(qrng, spec, fit, new, int(params["n_modes"]),
@@ -491,6 +492,19 @@ def execute(cfg: dict, *, stop_at_first=True, trace=False) -> RunResult:
                     if ok():
                         input_still_lazy(target_s, "after compute()")
                         input_still_lazy(sub, "after compute()")
+            # ---- compute() again: it must be a no-op (nothing left to load, input still lazy, same answers) --
+            if live and ok() and deferred and cfg.get("compute_twice", True):
+                step("compute_again")
+                mark = sim.mark()
+                o = oracle.capture(target_s.compute)
+                again = sim.calls_since(mark)
+                res.log.append(f"  compute again -> {o.kind()} sched_calls={len(again)}")
+                if not o.ok:
+                    violate("E1", f"outcome:{o.kind()}", f"a second compute() raised {o.kind()}: {o.exc_msg[:200]}", "compute_again")
+                else:
+                    input_still_lazy(target_s, "after a second compute()")
+                    input_still_lazy(sub, "after a second compute()")
+                    probes.add("second compute()")
             settle("after_compute")
 
             # ---- E1: every observable equals the in-memory fit --------------------------------------------
@@ -567,6 +581,8 @@ def simplifications(cfg: dict):
         yield variant(fault_compute=None)
     if cfg.get("s1"):
         yield variant(s1=False)
+    if cfg.get("compute_twice"):
+        yield variant(compute_twice=False)
     if cfg.get("rot_params"):
         yield variant(rot_params=None)
     sc = cfg["sched"]
